@@ -57,6 +57,20 @@ def build_jobs(prop, tier, seed, names, include_points=False, zero_cap_stream=Tr
                              "opts": {"max_arity": 8 if c % 2 else 6, "width": 2, "base": 2, "allow_all_zero": True},
                              "points": 0.05, "deadline_s": 100 if q else 900},
                             mode="jit" if c % 2 else "interp", timeout=400 if q else 1500, tag="deep:%d" % c))
+    # wide stream: arity up to 12 on domains up to 10 values - far beyond O-hull; judged by the sampled oracles (a satisfying
+    # tuple outside the output, a violating tuple inside an 'entailed' output, a satisfying tuple under 'inconsistent'), by
+    # C06 on points and by the second call
+    wide = [n for n in names if n not in ("no_sub_cycle", "scc", "dummy", "element_iv")]
+    if wide:
+        for c in range(2 if q else 6):
+            jobs.append(Job("framework.props.calls", "run_calls",
+                            {"props": props, "names": wide, "kind": "random", "tier": tier,
+                             "seed": seed * 60013 + c * 37 + 11, "count": (500 if q else 6000) * len(wide),
+                             "opts": {"max_arity": 12 if c % 2 else 9, "width": 9 if c % 2 else 6, "base": 6,
+                                      "allow_all_zero": True},
+                             "points": 0.08, "deadline_s": 100 if q else 900, "hull_limit": 3000},
+                            mode="jit" if c % 2 else "interp", timeout=400 if q else 1500, tag="wide:%d" % c,
+                            stall_s=60 if c % 2 else None))
     if "lexicographic_leq" in names:
         # the lexicographic automaton only shows its later states on vectors of length >= 3 with non-boolean domains
         for c in range(2 if q else 4):
@@ -111,6 +125,11 @@ def aggregate(rep, jobs, names):
         rep.count("point_inputs", r["points_in"])
         rep.count("calls_collapsing_box_to_point", r["collapsed"])
         rep.maxc("max_lines_in_one_call", r["max_lines"])
+        rep.count("calls_judged_by_sampling", r.get("sampled_calls", 0))
+        rep.count("sampled_tuples", r.get("sampled_tuples", 0))
+        rep.count("sampled_satisfying_tuples", r.get("sampled_satisfying", 0))
+        rep.count("entailment_answers_sampled", r.get("entail_sampled", 0))
+        rep.maxc("max_arity_called", r.get("max_arity", 0))
         if r.get("truncated"):
             truncated += 1
         for s in r["samples"]:
